@@ -6,30 +6,30 @@ import DAVerif.Proofs.WithKey
 # C04 — SQL formatting and optimization options never change query results
 
 Model: `Sql/NearSql.lean`, `Sql/ToNearSql.lean`, `Sql/Sem.lean`, `Sql/WithForm.lean` (shared, validated against the real
-code by the suites k5_near / k5_with / k5_semopt) and `Sql/WithFormG.lean` (this property: the WITH form with the cache
-key as a parameter, the repaired stub, SQL's scoping of CTE names).
+code by the suites k5_near / k5_with / k5_semopt; `withStub` is the stub after fix N28: the cache is consulted before
+the sub-query is converted) and `Sql/WithFormG.lean` (this property: the WITH form with the cache key as a parameter,
+the stub before fix N28, SQL's scoping of CTE names).
 
 What is proved, for every interpretation `Θ`, engine configuration, environment and NearSQL tree `q`:
 * the query names `toNearSql` generates are pairwise different and it never emits a CTE reference (`NearWF`);
 * `use_with` on = off (no cache): the WITH form evaluates to the nested query (`C04_with_form_sound`), also under
   SQL's scoping of CTE names over table names provided no table the query reads is named like a generated query name
   (`C04_with_form_scoped_sound`; the guard is necessary: `C04_with_form_scoped_necessary`, finding D24);
-* `use_cte_elim`: for EVERY key function that is faithful and closed on `q` the WITH form with the cache evaluates to
-  the nested query (`C04_cte_elim_sound_key`, `C04_cte_elim_sound` for the model's key); semantic faithfulness alone is
-  NOT enough for the code as it is — `to_with_form_stub` discards the steps of a sub-query on a cache hit but keeps the
-  cache entries registered while converting it, so a later hit can name a CTE that is never emitted
-  (`C04_cte_elim_closed_necessary`; reachable on the real code: finding N28);
-* for the repaired stub (cache consulted before the recursion, `fixes/c04-cte-elim-lookup-before-recursion.diff`)
-  semantic faithfulness alone suffices (`C04_cte_elim_fixed_sound`).
+* `use_cte_elim`: for EVERY key function that is semantically faithful on `q` (sub-queries with equal keys denote the
+  same table, `KeyFaith`) the WITH form with the cache evaluates to the nested query (`C04_cte_elim_sound_key`;
+  `C04_cte_elim_sound`, `C04_to_sql_options_sound` for the model's key and `semToSql`);
+* the code BEFORE fix N28 needed more: `to_with_form_stub` converted the sub-query first and discarded the converted
+  steps on a cache hit while the cache kept the entries registered during the conversion, so a later hit could name a
+  CTE that was never emitted — semantic faithfulness was not enough (`C04_cte_elim_closed_necessary`, reproduced on
+  the real pre-fix code: finding N28); it was sound for keys that are also closed (`C04_cte_elim_old_sound_key`).
 
 Not proved here (stated for the record):
 * `C04_key_faithful : toNearSql cfg p = .ok q → KeyFaithful q` — the remaining hypothesis of the CTE-elimination
-  theorems.  `C04_key_ok_of_shape` reduces it to the syntactic statement "equal keys ⇒ same sub-tree up to the
-  numbering of query names and same bound columns"; that statement (and `closed`, hence `KeyFaithful`) is FALSE of
-  `toNearSql` in general (finding N28: two `select_columns` in different orders over the same renamed table have the
-  same key but sub-trees with differently ordered columns — by `C04_cte_elim_sound` and the failing run of the model on
-  corpus/C04/n28_dangling_cte.json); the semantic half `KeyFaith` is what the suite k5_semopt and the oracle test, and
-  it is all the repaired code needs (`C04_cte_elim_fixed_sound`).
+  theorems.  `C04_key_faithful_of_shape` reduces it to the syntactic statement "equal keys ⇒ same sub-tree up to the
+  numbering of query names and same bound columns"; that syntactic statement is FALSE of `toNearSql` in general
+  (corpus/C04/n28_dangling_cte.json: two `select_columns` in different orders over the same renamed table have the same
+  key but sub-trees with differently ordered columns), the semantic statement `KeyFaith` is what the suite k5_semopt and
+  the oracle test.
 * `C04_merge_option_sound` (extend merge on/off: `semSql Θ ec env (toNearSql {cfg with merges := true} p)` and
   `semSql Θ ec env (toNearSql {cfg with merges := false} p)` are the same table): proved in `Props/C04merge.lean`
   (`Sql.C04_merge_option_sound`, by the SQL-A proofs), not here.
@@ -47,9 +47,9 @@ def NearWF (q : Near) : Prop := q.names.Nodup ∧ q.noCte = true
 /-- no database table the query reads is named like one of its generated query names (guard of finding D24) -/
 def NoTableNamedLikeCte (q : Near) : Prop := ∀ n ∈ q.tables, n ∉ q.names
 
-/-- `KeyFaithful q`: for every interpretation, engine and environment, bound sub-queries of `q` with the same
-`cacheKey` denote the same table, and the keys occurring below them are the same (see `KeyOK`) -/
-def KeyFaithful (q : Near) : Prop := ∀ Θ ec env, KeyOK Θ ec env cacheKey q
+/-- `KeyFaithful q`: for every interpretation, engine and environment, any two bound sub-queries of `q` with the same
+`cacheKey` denote the same table under `semNear` -/
+def KeyFaithful (q : Near) : Prop := ∀ Θ ec env, KeyFaith Θ ec env cacheKey q
 
 /-! ## 1. query names -/
 
@@ -152,6 +152,8 @@ theorem qShare_ok : KeyOK Θ0 .sqlite env2 fieldKey qShare := by
     rw [qShare_desc] at hx
     simp only [List.mem_cons, List.not_mem_nil, or_false] at hx
     rcases hx with rfl | rfl <;> simp [idSel, Near.desc, Near.isTable] at hm
+
+theorem qShare_faith : KeyFaith Θ0 .sqlite env2 fieldKey qShare := qShare_ok.faith
 end C04Ex
 open C04Ex
 
@@ -174,14 +176,19 @@ theorem C04_with_form_scoped_necessary :
 
 /-! ## 3. `use_cte_elim` -/
 
-/-- **CTE elimination is sound for every key function that is faithful and closed on the query** (`KeyOK`): bound
-sub-queries with equal keys denote the same table, and the keys below them are the same.  The real cache key (which
-contains Python set-iteration orders) is one such function whenever it refines a faithful one; nothing else about
-the key is used. -/
+/-- **CTE elimination is sound for every key function that is semantically faithful on the query** (`KeyFaith`: bound
+sub-queries with equal keys denote the same table).  The real cache key (which contains Python set-iteration orders)
+is one such function whenever equal real keys mean equal tables; nothing else about the key is used.  (The cache is
+consulted before a sub-query is converted, so every cache entry belongs to an emitted step.) -/
 theorem C04_cte_elim_sound_key (Θ : Interp) (ec : EngineCfg) (env : Env) (key : KeyFn) (q : Near) (hq : NearWF q)
-    (hk : KeyOK Θ ec env key q) :
+    (hk : KeyFaith Θ ec env key q) :
     semWith Θ ec env (toWithFormG key (some []) q).2.1 (toWithFormG key (some []) q).1 = semSql Θ ec env q :=
   toWithFormG_sound Θ ec env key q (some []) (Or.inr ⟨rfl, hk⟩) hq.2 hq.1
+
+/-- the WITH form without cache, for every key function (the key is not used) -/
+theorem C04_with_form_sound_key (Θ : Interp) (ec : EngineCfg) (env : Env) (key : KeyFn) (q : Near) (hq : NearWF q) :
+    semWith Θ ec env (toWithFormG key none q).2.1 (toWithFormG key none q).1 = semSql Θ ec env q :=
+  toWithFormG_sound Θ ec env key q none (Or.inl rfl) hq.2 hq.1
 
 /-- **CTE elimination of the model** (`toWithForm (some [])`, key `cacheKey`) **is sound on faithful queries.** -/
 theorem C04_cte_elim_sound (Θ : Interp) (ec : EngineCfg) (env : Env) (q : Near) (hq : NearWF q) (hk : KeyFaithful q) :
@@ -210,65 +217,41 @@ theorem C04_to_sql_options_sound (Θ : Interp) (ec : EngineCfg) (env : Env) (q :
       · rfl
       · exact C04_cte_elim_sound Θ ec env q hq (hk rfl)
 
-/-- **Semantic faithfulness of the key is not enough for the code as it is (finding N28).**  On a cache hit
-`to_with_form_stub` discards the steps of the sub-query it has just converted, but the cache keeps the entries
-registered during that conversion: in `N0 ∪ (N ∪ M')` the sub-query `N` (same key and rows as `N0`) registers its
-source `M`, is then replaced by the CTE of `N0`, and `M'` (same key and rows as `M`) is replaced by a reference to
-the CTE of `M` — which was never emitted: the WITH form fails although all equal-keyed sub-queries are equal. -/
-theorem C04_cte_elim_closed_necessary :
-    ¬ ∀ (Θ : Interp) (ec : EngineCfg) (env : Env) (key : KeyFn) (q : Near), NearWF q → KeyFaith Θ ec env key q →
-        semWith Θ ec env (toWithFormG key (some []) q).2.1 (toWithFormG key (some []) q).1 = semSql Θ ec env q := by
-  intro h
-  have h0 := h Θ0 .sqlite env2 fieldKey qDang qDang_wf qDang_faith
-  have e1 : semWith Θ0 .sqlite env2 (toWithFormG fieldKey (some []) qDang).2.1 (toWithFormG fieldKey (some []) qDang).1
-      = .error .other := rfl
-  have e2 : semSql Θ0 .sqlite env2 qDang = .ok ⟨["x"], [[("x", .num 1)], [("x", .num 1)], [("x", .num 1)]]⟩ := rfl
-  rw [e1, e2] at h0
-  cases h0
-
-/-- **The repaired stub** (`toWithFormFix`: the cache is consulted before the sub-query is converted) **is sound for
-every semantically faithful key function**, with or without cache. -/
-theorem C04_cte_elim_fixed_sound (Θ : Interp) (ec : EngineCfg) (env : Env) (key : KeyFn) (q : Near) (hq : NearWF q)
-    (hk : KeyFaith Θ ec env key q) :
-    semWith Θ ec env (toWithFormFix key (some []) q).2.1 (toWithFormFix key (some []) q).1 = semSql Θ ec env q :=
-  toWithFormFix_sound Θ ec env key q (some []) (Or.inr ⟨rfl, hk⟩) hq.2 hq.1
-
-/-- the repaired code without cache: the WITH form evaluates to the nested query (as `C04_with_form_sound`) -/
-theorem C04_with_form_fixed_sound (Θ : Interp) (ec : EngineCfg) (env : Env) (key : KeyFn) (q : Near) (hq : NearWF q) :
-    semWith Θ ec env (toWithFormFix key none q).2.1 (toWithFormFix key none q).1 = semSql Θ ec env q :=
-  toWithFormFix_sound Θ ec env key q none (Or.inl rfl) hq.2 hq.1
-
-/-- **`to_sql` of the repaired code under `use_with` / `use_cte_elim` returns the result of the nested query** whenever
-equal cache keys mean equal tables (`KeyFaith … cacheKey`). -/
-theorem C04_to_sql_options_fixed_sound (Θ : Interp) (ec : EngineCfg) (env : Env) (q : Near) (hq : NearWF q)
-    (useWith cteElim : Bool) (hk : cteElim = true → KeyFaith Θ ec env cacheKey q) :
-    semToSqlFix Θ ec env useWith cteElim q = semSql Θ ec env q := by
-  unfold semToSqlFix
-  cases useWith with
-  | false => rfl
-  | true =>
-    cases cteElim with
-    | false =>
-      simp only [if_true, Bool.false_eq_true, if_false]
-      split
-      · rfl
-      · exact C04_with_form_fixed_sound Θ ec env cacheKey q hq
-    | true =>
-      simp only [if_true]
-      split
-      · rfl
-      · exact C04_cte_elim_fixed_sound Θ ec env cacheKey q hq (hk rfl)
-
 /-- **Equal up to the numbering of query names ⇒ faithful.**  If equal cache keys imply "same sub-tree once the
 query names are erased, bound with the same columns" then `KeyFaithful q`. -/
-theorem C04_key_ok_of_shape (q : Near) (h : ShapeDet q) : KeyFaithful q :=
-  fun Θ ec env => KeyOK_of_shape Θ ec env q h
+theorem C04_key_faithful_of_shape (q : Near) (h : ShapeDet q) : KeyFaithful q :=
+  fun Θ ec env => KeyFaith_of_shape Θ ec env q h
 
 /-- query names are irrelevant to the SQL semantics -/
 theorem C04_names_irrelevant (Θ : Interp) (ec : EngineCfg) (env : Env) (ctes : List (String × Table)) (q : Near)
     (cols : Option (List String)) (f : Bool) :
     semNear Θ ec env ctes q cols f = semNear Θ ec env ctes q.unname cols f :=
   semNear_unname Θ ec env ctes q cols f
+
+/-! ## 4. the stub before fix N28 (`toWithFormOld`: sub-query converted first, cache consulted afterwards) -/
+
+/-- **The pre-fix code needed `closed` (finding N28): semantic faithfulness of the key was not enough.**  On a cache
+hit the old `to_with_form_stub` discarded the steps of the sub-query it had just converted, but the cache kept the
+entries registered during that conversion: in `N0 ∪ (N ∪ M')` the sub-query `N` (same key and rows as `N0`) registers
+its source `M`, is then replaced by the CTE of `N0`, and `M'` (same key and rows as `M`) is replaced by a reference to
+the CTE of `M` — which was never emitted: the WITH form fails although all equal-keyed sub-queries are equal. -/
+theorem C04_cte_elim_closed_necessary :
+    ¬ ∀ (Θ : Interp) (ec : EngineCfg) (env : Env) (key : KeyFn) (q : Near), NearWF q → KeyFaith Θ ec env key q →
+        semWith Θ ec env (toWithFormOld key (some []) q).2.1 (toWithFormOld key (some []) q).1 = semSql Θ ec env q := by
+  intro h
+  have h0 := h Θ0 .sqlite env2 fieldKey qDang qDang_wf qDang_faith
+  have e1 : semWith Θ0 .sqlite env2 (toWithFormOld fieldKey (some []) qDang).2.1 (toWithFormOld fieldKey (some []) qDang).1
+      = .error .other := rfl
+  have e2 : semSql Θ0 .sqlite env2 qDang = .ok ⟨["x"], [[("x", .num 1)], [("x", .num 1)], [("x", .num 1)]]⟩ := rfl
+  rw [e1, e2] at h0
+  cases h0
+
+/-- **… and `closed` was enough**: the pre-fix code was sound for every key function that is faithful and closed on the
+query (`KeyOK`: equal keys ⇒ same table, and the keys below are the same). -/
+theorem C04_cte_elim_old_sound_key (Θ : Interp) (ec : EngineCfg) (env : Env) (key : KeyFn) (q : Near) (hq : NearWF q)
+    (hk : KeyOK Θ ec env key q) :
+    semWith Θ ec env (toWithFormOld key (some []) q).2.1 (toWithFormOld key (some []) q).1 = semSql Θ ec env q :=
+  toWithFormOld_sound Θ ec env key q (some []) (Or.inr ⟨rfl, hk⟩) hq.2 hq.1
 
 /-! ## non-vacuity -/
 
@@ -282,13 +265,17 @@ example : ((toWithFormG fieldKey none qShare).2.1.map (·.name)) = ["a", "b"] :=
 /-- … and the theorem applies to it -/
 example : semWith Θ0 .sqlite env2 (toWithFormG fieldKey (some []) qShare).2.1 (toWithFormG fieldKey (some []) qShare).1
     = semSql Θ0 .sqlite env2 qShare :=
-  C04_cte_elim_sound_key Θ0 .sqlite env2 fieldKey qShare qShare_wf qShare_ok
+  C04_cte_elim_sound_key Θ0 .sqlite env2 fieldKey qShare qShare_wf qShare_faith
 example : semSql Θ0 .sqlite env2 qShare = .ok ⟨["x"], [[("x", .num 1)], [("x", .num 1)]]⟩ := rfl
 /-- the guard of D24 holds of a query that reads `d` only -/
 example : NoTableNamedLikeCte qDang := by unfold NoTableNamedLikeCte; decide
-/-- the repaired stub emits every CTE it refers to on the counterexample of N28 -/
-example : semWith Θ0 .sqlite env2 (toWithFormFix fieldKey (some []) qDang).2.1 (toWithFormFix fieldKey (some []) qDang).1
+/-- the code as it is emits every CTE it refers to on the counterexample of N28 -/
+example : semWith Θ0 .sqlite env2 (toWithFormG fieldKey (some []) qDang).2.1 (toWithFormG fieldKey (some []) qDang).1
     = semSql Θ0 .sqlite env2 qDang :=
-  C04_cte_elim_fixed_sound Θ0 .sqlite env2 fieldKey qDang qDang_wf qDang_faith
+  C04_cte_elim_sound_key Θ0 .sqlite env2 fieldKey qDang qDang_wf qDang_faith
+/-- the pre-fix code was sound on `qShare` (its key is closed there) -/
+example : semWith Θ0 .sqlite env2 (toWithFormOld fieldKey (some []) qShare).2.1 (toWithFormOld fieldKey (some []) qShare).1
+    = semSql Θ0 .sqlite env2 qShare :=
+  C04_cte_elim_old_sound_key Θ0 .sqlite env2 fieldKey qShare qShare_wf qShare_ok
 
 end DAVerif
